@@ -480,7 +480,7 @@ class Engine:
 
     def verify(self, contract: Contract):
         """Generates the obligations of one function under contract."""
-        fi = self.prog.lookup(contract.name)
+        fi = self.prog.lookup(contract.name.split("$")[0])
         if fi is None:
             raise ContractError(f"contract target {contract.name} not found in the program")
         self.cur = contract
@@ -1347,8 +1347,7 @@ class Engine:
                 untouched = self.h0 is not None and okst.heap.farr(attr).eq(self.h0.farr(attr))
                 if okst.pure is None:
                     okst.assume(z3.And(v.t >= 0, v.t < (self.h0.alloc if untouched else okst.heap.alloc)))
-                if untouched:
-                    okst.heap.mark_old(v.t)
+                okst.heap.mark_below(v.t, self.h0.alloc if untouched else okst.heap.alloc)
             out.append((okst, v))
         return out
 
@@ -1390,8 +1389,7 @@ class Engine:
                 untouched = self.h0 is not None and okst.heap.arrs(region)[1].eq(self.h0.arrs(region)[1])
                 if okst.pure is None:
                     okst.assume(z3.And(v.t >= 0, v.t < (self.h0.alloc if untouched else okst.heap.alloc)))
-                if untouched:
-                    okst.heap.mark_old(v.t)
+                okst.heap.mark_below(v.t, self.h0.alloc if untouched else okst.heap.alloc)
             out.append((okst, v))
         return out
 
@@ -2030,6 +2028,8 @@ class Engine:
         c1 = Ctx(self, h0, st.heap, bound, res, extra=extra)
         for nm, p in con.ensures(c1):
             st.assume(p, nm)
+        if res is not None and res.ty.kind in ("ref", "list", "any") and isinstance(res.t, z3.ExprRef):
+            st.heap.mark_below(res.t, st.heap.alloc)   # a returned reference exists at return time
         out.append((st, res))
         return out
 
